@@ -43,6 +43,7 @@ MEMO_GRAMMARS = [
     ('clo', "start: {x 'b'} {x} ;\n\nx: 'a' | 'b' 'a' ;\n"),
     ('cut', "start: x ~ 'b' | x 'a' | y ;\n\nx: 'a' ;\n\ny: x x | 'b' ;\n"),
     ('named', "start: l:x r:(x | y) | l:y ;\n\nx: v:'a' w:['b'] ;\n\ny: 'b' {x} ;\n"),
+    ('stmt', "start: x 'b' 'a' | x 'a' | y ;\n\nx: 'a' | 'b' ;\n\ny: 'a' 'a' | 'a' | 'b' ;\n"),
 ]
 
 
@@ -53,13 +54,15 @@ def outcome(r):
     return (r[0], None, r[1])
 
 
-def lattice_case(m, label, model, text, is_lr):
+def lattice_case(m, label, model, text, is_lr, only=None):
     base = impl.parse(model, text)
     m.add('evaluations')
     bo = outcome(base)
     consumed = base[0] == 'ok'
     for name, settings, lr_ok in CONFIGS:
         if is_lr and not lr_ok:
+            continue
+        if only is not None and name not in only:
             continue
         got = impl.parse(model, text, _keep_parseinfo=False, **settings)
         m.add('evaluations')
@@ -82,15 +85,59 @@ def shard_c01(m, items, inputs=()):
                 m.add('nontrivial')
 
 
-def shard_c05(m, items, inputs=()):
+def shard_c05(m, items, inputs=(), CUT_CONFIGS=None):
     for name, exp, extra, _ne, _nx in items:
         g = c05.mk(exp, extra)
         model = impl.compile_text(gs.render_grammar(g))
         m.add('programs')
         label = '; '.join(gs.render_rule(r) for r in g.rules[1:-1])
         for t in inputs:
-            if lattice_case(m, label, model, t, False):
+            if lattice_case(m, label, model, t, False, only=CUT_CONFIGS):
                 m.add('nontrivial')
+
+
+class FailOn:
+    """Semantics: the action of `rule` raises FailedSemantics when its AST equals `value`."""
+
+    def __init__(self, rule, value):
+        self.rule, self.value = rule, value
+
+    def _default(self, ast, *a, **k):
+        return ast
+
+    def __getattr__(self, name):
+        if name.startswith('_') or name != self.rule:
+            raise AttributeError(name)
+
+        def action(ast, *a, **k):
+            from tatsu.exceptions import FailedSemantics
+            if ast == self.value:
+                raise FailedSemantics(f'{self.rule} rejects {ast!r}')
+            return ast
+        return action
+
+
+SEM_MENU = [('x', 'a'), ('x', 'b'), ('y', 'b'), ('x', ['a', 'b']), ('y', None), ('t', '1'), ('e', '1')]
+
+
+def semantics_case(m, label, model, text, is_lr):
+    """memo on vs off (non-LR) vs tiny cache, under semantic actions that fail."""
+    n = 0
+    for rule, value in SEM_MENU:
+        if rule not in model.rulemap:
+            continue
+        base = outcome(impl.parse(model, text, semantics=FailOn(rule, value)))
+        m.add('evaluations')
+        for name, settings in (('memo-off', dict(memoization=False)), ('perline-0.01', dict(perlinememos=0.01)), ('prune-off', dict(prune_memos_on_cut=False))):
+            if is_lr and name == 'memo-off':
+                continue
+            got = outcome(impl.parse(model, text, semantics=FailOn(rule, value), **settings))
+            m.add('evaluations')
+            m.add('transitions')
+            n += 1
+            if got != base:
+                m.violation(f'A/semantic-failure/{name}', grammar=label, input=text, failing_action=[rule, value], default=base, alt=got)
+    return n
 
 
 def shard_text(m, items):
@@ -100,6 +147,7 @@ def shard_text(m, items):
         for t in inputs:
             if lattice_case(m, text, model, t, is_lr):
                 m.add('nontrivial')
+            semantics_case(m, text, model, t, is_lr)
         m.sample({'grammar': text, 'inputs': len(inputs), 'configs': [c[0] for c in CONFIGS if (c[2] or not is_lr)]})
 
 
@@ -254,17 +302,26 @@ def run(rc):
     if quick:
         exps = [e for e in exps if sum(1 for x in gs.subexps(e) if x[0] == 'call') >= 2 or gs.kinds(e) & {'alt', 'look', 'nlook', 'clo', 'pclo', 'opt'}]
     inputs = list(gs.inputs(['a', 'b', ' '], 3 if quick else 4))
+    import time as _t
+    t0 = _t.time()
     rc.pmap(shard_c01, exps, inputs=inputs)
+    rc.coverage['phase_s'] = {'c01-corpus': round(_t.time() - t0, 1)}
     # corpus 2: cut corpus (prune_memos_on_cut)
     progs = list(c05.programs(2, 1))
     if quick:
         progs = progs[::1]
-    rc.pmap(shard_c05, progs, inputs=list(gs.inputs(['1', '2'], 4 if quick else 6)))
+    t0 = _t.time()
+    rc.pmap(shard_c05, progs, inputs=list(gs.inputs(['1', '2'], 4 if quick else 6)),
+            CUT_CONFIGS=('memo-off', 'perline-0.01', 'prune-off', 'perline-0.01+prune-off+parseinfo') if quick else None)
+    rc.coverage['phase_s']['c05-corpus'] = round(_t.time() - t0, 1)
+    t0 = _t.time()
     # corpus 3: memo-sensitive and left-recursive hand-written grammars
     memo_inputs = list(gs.inputs(['a', 'b', ' '], 4 if quick else 5))
-    lr_inputs = [' '.join(t) for n in range(0, 6 if quick else 8) for t in itertools.product(['1', '+', '*', '-', '(', ')'][:4 if quick else 6], repeat=n)]
+    lr_inputs = [' '.join(t) for n in range(0, 5 if quick else 7) for t in itertools.product(['1', '+', '*', '-', '(', ')'][:4 if quick else 6], repeat=n)]
     items = [(n, g, memo_inputs, False) for n, g in MEMO_GRAMMARS] + [(n, g, lr_inputs, True) for n, g in LR_GRAMMARS]
     rc.pmap(shard_text, items, chunk=1)
+    rc.coverage['phase_s']['handwritten'] = round(_t.time() - t0, 1)
+    t0 = _t.time()
     # Part B
     ev_inputs = list(gs.inputs(['a', 'b'], 4 if quick else 5))
     ev_inputs = [' '.join(t) for t in ev_inputs]
@@ -275,14 +332,15 @@ def run(rc):
     for n, g, ins, lr in bitems:
         for i in range(0, len(ins), 8):
             split.append((n, g, ins[i:i + 8], lr))
-    rc.pmap(shard_evict, split, chunk=1, bound=1 if quick else 2)
+    rc.pmap(shard_evict, split, chunk=1, bound=2 if quick else 3)
+    rc.coverage['phase_s']['evictions'] = round(_t.time() - t0, 1)
     # Part C
     boundeddict_bfs(rc, 4 if quick else 5)
     c = rc.total.counts
     rc.rule = ('A: (C01 expressions with helper-rule calls, <=3 nodes) x inputs over {a,b,space}; (C05 cut corpus) x inputs over {1,2}; '
                'hand-written memo-sensitive and left-recursive grammars x all short token strings; each re-parsed under '
                f'{len(CONFIGS)} alternative configurations (memoization off only for non-left-recursive grammars). '
-               'B: every pattern of <= k evicted memo lookups per parse (k=1 quick, 2 thorough). C: BoundedDict vs list model, all operation '
+               'B: every pattern of <= k evicted memo lookups per parse (k=2 quick, 3 thorough). C: BoundedDict vs list model, all operation '
                'sequences to a depth. non-trivial = accepted input (A) / execution with at least one eviction (B)')
     rc.coverage.update({
         'states': c.get('states', 0), 'transitions': c.get('transitions', 0),
